@@ -191,6 +191,11 @@ func report(w *World, prop, tier string, seed int, t0 time.Time, gens []*Gen, tr
 	for _, n := range sortedKeys(noteSet) {
 		assumptions = append(assumptions, n)
 	}
+	for _, g := range gens {
+		if g.spec != nil && g.spec.TrustedFrame {
+			trustedBase = append(trustedBase, "TRUSTED frame (assigns clause assumed, not checked): "+g.key)
+		}
+	}
 	for _, s := range trusted {
 		trustedBase = append(trustedBase, fmt.Sprintf("TRUSTED contract (body not verified): %s::%s %s", s.Pkg, s.Name, strings.Join(s.Notes, "; ")))
 	}
